@@ -252,6 +252,56 @@ def ws_runs(binary, rep):
     return n, ok
 
 
+def registrations(binary, rep, texts):
+    """every callback is optional (cif.h): what the registered ones are told does not depend on which others are registered.
+    Each document is parsed (all-continue, storing and syntax-only) with every subset of {handler, keyword callback, data-name
+    callback, white space callback} registered; the log of each parse must be the projection of the all-registered log"""
+    kinds = {"kw": "kw", "dn": "dn", "ws": "ws"}
+    subsets = [(h, sy, ws) for h in (1, 0) for sy in (1, 2, 3, 0) for ws in (1, 0)]
+    cmds = []
+    for t in texts:
+        for store in (1, 0):
+            for h, sy, ws in subsets:
+                c = {"op": "parse", "text": t, "handler": h, "ws": ws, "errors": "accept"}
+                if sy: c["syntax"] = sy
+                if store: c["cif"] = "c"
+                cmds.append(c)
+                if store: cmds.append({"op": "cif_destroy", "cif": "c"})
+    rr = run_cifrun(binary, cmds, timeout=600)
+    outs = [o for o in rr.outs if o.get("op") == "parse" or "log" in o]
+    n = ok = 0
+    k = 0
+    for t in texts:
+        for store in (1, 0):
+            ref = None
+            for h, sy, ws in subsets:
+                o = outs[k] if k < len(outs) else {}
+                k += 1
+                n += 1
+                if "log" not in o:
+                    rep.violation("registrations: parse did not return " + sanitizer_signature(rr.stderr), "document %r handler=%d syntax=%d ws=%d" % (t, h, sy, ws), {"text": t, "stderr": rr.stderr[-1500:]})
+                    return n, ok
+                lg = [(e.get("cb"), e.get("t"), e.get("line"), e.get("col"), e.get("code"), e.get("name")) for e in o["log"]]
+                if ref is None:
+                    ref = lg
+                    ok += 1
+                    continue
+                keep = lambda e: (e[0] == "error" or (e[0] == "kw" and sy in (1, 3)) or (e[0] == "dn" and sy in (1, 2)) or (e[0] == "ws" and ws)
+                                  or (e[0] not in ("kw", "dn", "ws", "error") and h))
+                want = [e for e in ref if keep(e)]
+                if lg != want or o.get("rc") != 0:
+                    miss = [e for e in want if e not in lg][:2]
+                    extra = [e for e in lg if e not in want][:2]
+                    what = "handler" if h else "no handler"
+                    rep.violation("registrations: log is not the projection of the all-registered log (%s, syntax %d, ws %d)" % (what, sy, ws),
+                                  "document %r (%s): with %s, syntax callbacks %s, white space callback %s: rc %s, %d callbacks where the projection has %d; missing %s, unexpected %s"
+                                  % (t, "storing" if store else "syntax-only", what, {0: "none", 1: "both", 2: "data-name only", 3: "keyword only"}[sy], "set" if ws else "unset", o.get("rc"), len(lg), len(want), miss, extra),
+                                  {"text": t, "commands": [dict({"op": "parse", "text": t, "handler": h, "ws": ws, "errors": "accept"}, **({"syntax": sy} if sy else {}))]})
+                else:
+                    ok += 1
+    return n, ok
+
+
 def c15(tier, replay=None):
     rep = Report("C15", tier, "model_checking")
     binary = build("asan")
@@ -329,6 +379,9 @@ def c15(tier, replay=None):
     nws = ws_runs(binary, rep)
     total += nws[0]; total_ok += nws[1]
     log("[C15 whitespace runs] documents x modes %d ok %d" % nws)
+    nreg = registrations(binary, rep, WS_DOCS + [render(DOCS[nm])[0] for nm in names[:2]])
+    total += nreg[0]; total_ok += nreg[1]
+    log("[C15 registrations] documents x modes x callback subsets %d ok %d" % nreg)
     return rep.finish({"states": max(tstates, 1), "transitions": max(ttrans, 1), "traces_validated_against_impl": total_ok,
                        "handler_programs": total, "documents": covs, "exhaustive": tier != "quick" or False,
                        "explanation": "every assignment of {continue, skip-current, skip-siblings, end, error 10} to the handler callbacks of each document, replayed in storing and in syntax-only mode"},
